@@ -269,11 +269,18 @@ func verifModes(req *VerifRequest, resp *VerifResponse) {
 	inner := make([]VerifResult, 0)
 	for k := range req.Cases {
 		for at := 0; at <= len(req.Cases[k]); at++ {
-			ok := (k + 1) % len(req.Cases)
-			other := req.Cases[ok]
-			if base[ok].Verdict == "steplimit" {
-				other = ""
+			// the inner parse runs without step limit: take the next case that terminates when run alone
+			ok := -1
+			for d := 1; d <= len(req.Cases); d++ {
+				if c := (k + d) % len(req.Cases); base[c].Verdict != "steplimit" {
+					ok = c
+					break
+				}
 			}
+			if ok < 0 {
+				break
+			}
+			other := req.Cases[ok]
 			var innerRes VerifResult
 			fired := false
 			verifNested = func(pos int) {
@@ -416,10 +423,21 @@ func verifModes(req *VerifRequest, resp *VerifResponse) {
 		inner := make([]VerifResult, 0)
 		for k := range req.Cases {
 			for at := 0; at <= len(req.Cases[k]); at++ {
-				other := req.Cases[(k+1)%len(req.Cases)]
-				if len(resp.Results) > 0 && len(resp.Results[0]) == len(req.Cases) && resp.Results[0][(k+1)%len(req.Cases)].Verdict == "steplimit" {
-					other = ""
+				// the inner parse runs without step limit: take the next case that terminates when run alone
+				ok := (k + 1) % len(req.Cases)
+				if len(resp.Results) > 0 && len(resp.Results[0]) == len(req.Cases) {
+					ok = -1
+					for d := 1; d <= len(req.Cases); d++ {
+						if c := (k + d) % len(req.Cases); resp.Results[0][c].Verdict != "steplimit" {
+							ok = c
+							break
+						}
+					}
+					if ok < 0 {
+						break
+					}
 				}
+				other := req.Cases[ok]
 				var innerRes VerifResult
 				fired := false
 				verifNested = func(pos int) {
@@ -448,7 +466,7 @@ func verifModes(req *VerifRequest, resp *VerifResponse) {
 					break
 				}
 				if fired {
-					innerRes.Msg = strconv.Itoa((k+1)%len(req.Cases)) + "|" + innerRes.Msg
+					innerRes.Msg = strconv.Itoa(ok) + "|" + innerRes.Msg
 					inner = append(inner, innerRes)
 				}
 			}
